@@ -34,7 +34,36 @@ type opS struct {
 	parts    []partS
 }
 
+// normalize keeps the op inside the model's assumption that the sink's known produce version is the version
+// requests are written at: a transactional producer without KIP-890 part 2 never writes (hence never learns) a
+// version above 11, and a cluster whose metadata carries no topic IDs (all zero) never gets a version above 12.
+func (o *opS) normalize() {
+	vcap := 13
+	anyZero := false
+	for _, p := range o.parts {
+		if p.id == zeroID {
+			anyZero = true
+		}
+	}
+	if anyZero {
+		for i := range o.parts {
+			o.parts[i].id = zeroID
+		}
+		vcap = 12
+	}
+	if o.txn != "-" && o.tx890 == 0 {
+		vcap = 11
+	}
+	if o.v > vcap {
+		o.v = vcap
+	}
+	if o.pv > vcap {
+		o.pv = vcap
+	}
+}
+
 func (o opS) emit() {
+	o.normalize()
 	var sb strings.Builder
 	fmt.Fprintf(&sb, "req %d %d %d %d %d %d %d %d %d %s %s %s %d %d", o.v, o.pv, o.tx890, o.acks, o.timeout, o.limit, o.bmax, o.pid, o.epoch, o.txn, o.cid, o.comp, o.corr, len(o.parts))
 	for _, p := range o.parts {
